@@ -13,11 +13,20 @@ func validateMaps(env *Environment, errorSink *validation.ErrorSink) *Environmen
 		return env
 	}
 
+	// A type argument is reached again through the instantiated definition of the generic
+	// type it is given to: check every reference once
+	seenReferences := make(map[*SimpleType]bool)
+
 	Visit(env, func(self Visitor, node Node) {
-		if st, ok := node.(*SimpleType); ok && st.ResolvedDefinition != nil &&
-			len(st.ResolvedDefinition.GetDefinitionMeta().TypeArguments) > 0 {
-			// Check the referenced type with the type arguments provided
-			self.Visit(st.ResolvedDefinition)
+		if st, ok := node.(*SimpleType); ok {
+			if seenReferences[st] {
+				return
+			}
+			seenReferences[st] = true
+			if st.ResolvedDefinition != nil && len(st.ResolvedDefinition.GetDefinitionMeta().TypeArguments) > 0 {
+				// Check the referenced type with the type arguments provided
+				self.Visit(st.ResolvedDefinition)
+			}
 		}
 
 		m, ok := node.(*Map)
